@@ -75,7 +75,7 @@ impl Interpreter {
 
                 self.state.clone()
             }
-            ScriptBit::Coinbase(_) => todo!(),
+            ScriptBit::Coinbase(_) => return Err(InterpreterError::InvalidStackOperation("Coinbase data is not executable script")),
         })
     }
 
